@@ -457,6 +457,7 @@ def _expand_fn(f, helpers, depth, stack, closures=None):
     n = 0
     bi = 0
     memo = {}
+    caprefs = {}
     closures = closures or {}
     chains = {}          # block index -> helpers it was copied through (recursion / depth guard)
     while bi < len(body["blocks"]):
@@ -547,6 +548,8 @@ def _expand_fn(f, helpers, depth, stack, closures=None):
                     if len(p0) == 1 and isinstance(p0[0], dict) and p0[0].get("closure") and \
                             ("ref", p0[0].get("f")) in caps:
                         s0["rv"] = {"k": "ref", "bk": "shared", "place": copy.deepcopy(caps[("ref", p0[0]["f"])])}
+                        if not s0["lhs"]["p"]:
+                            caprefs[s0["lhs"]["l"]] = caps[("ref", p0[0]["f"])]
                 _subst_captures(nb, dl + 1, caps)
             nb.setdefault("inl", h["path"])
             chains[len(body["blocks"])] = chain | {h["path"]}
@@ -557,4 +560,29 @@ def _expand_fn(f, helpers, depth, stack, closures=None):
                                 "sp": sp, "inlparam": h["path"]})
         bb["term"] = {"sp": sp, "k": "goto", "t": db, "inlined": h["path"]}
         n += 1
+    if caprefs:
+        # `_x = &var` stands for a by-reference capture that the closure body copied out; a use
+        # `(*_x)..` is then `var..` itself (only when `_x` has that one definition)
+        defs = _single_defs(body)
+        one = {x: pl for x, pl in caprefs.items() if len(defs.get(x, [])) == 1}
+
+        def fwd(x):
+            if isinstance(x, dict):
+                if "l" in x and "p" in x and isinstance(x["l"], int):
+                    if x["l"] in one and x["p"][:1] == ["*"]:
+                        tgt = one[x["l"]]
+                        x["p"] = copy.deepcopy(tgt["p"]) + x["p"][1:]
+                        x["l"] = tgt["l"]
+                    return
+                for k, v in x.items():
+                    if k in ("sp", "fn_sp", "func", "ty", "from_ty", "arg_tys", "dest_ty", "targs", "fields"):
+                        continue
+                    fwd(v)
+            elif isinstance(x, list):
+                for v in x:
+                    fwd(v)
+        for bb2 in body["blocks"]:
+            if bb2.get("inl"):
+                fwd(bb2["stmts"])
+                fwd(bb2["term"])
     return n
